@@ -91,8 +91,19 @@ def run(prog: Program, L: Ledger) -> None:
     L.rule("W2", "Logger row and header: exactly one write, of a newline-terminated string, not inside a loop")
     L.rule("W3", "trajectory observer never seeks or truncates; frames go through the append-only writer")
     L.rule("W4", "restart rewrite: seek(0) and truncate() (or truncate(0)) precede the single document write")
+    L.rule("W6", "an observer builds each record from per-call state only: no module- or class-level mutable object (a scratch list shared by all loggers) is written by its call")
     L.rule("W5", "at every crash point between file operations: completed log lines/frames stay intact; the restart file is the previous or the new document")
 
+    from ..sharing import shared_escapes
+
+    esc_, n_sh_ = shared_escapes(prog)
+    io_esc = [e_ for e_ in esc_ if "/io/" in e_.where]
+    for e_ in io_esc:
+        L.violation("W6", f"{e_.func}:shared-{e_.name}", e_.where,
+                    f"`{e_.name}` ({e_.kind}, created once at {e_.defined}) is {e_.how}: the record under construction lives in an object shared by every observer of the process",
+                    "a call that raises part-way (a field function fails) leaves its columns behind: the next completed row — of this or of ANY other logger — carries them in front of its own", e_.name)
+    if not io_esc:
+        L.ok("W6", "io:per-call-state", "src/quansino/io", f"{n_sh_} candidates in the package")
     tobs = prog.cls("TextObserver")
     observers = [c for c in prog.subclasses(tobs, strict=True)]
     with_call = []
